@@ -68,4 +68,34 @@ theorem roundTrip_self (t : RawTriangle) (h : ∀ c ∈ t, cellOk c = true) : Sp
   | cons c cs ih =>
     simp only [Spec.cellsEqv, Bool.and_eq_true]
     exact ⟨cellEqv_self c (h c (by simp)), ih (fun c' h' => h c' (by simp [h']))⟩
+/-! ### a concrete witness used by the non-vacuity examples of C05 / C19: a 2-slice incremental
+triangle with all eight value kinds, a non-ASCII string, a `None` string, a 2-d array, a limit -/
+
+def exMeta1 : RawMetadata :=
+  { riskBasis := some [65], country := some [195, 156, 98], currency := none, reinsuranceBasis := some [],
+    lossDefinition := none, limit := some [0, 0, 0, 0, 0, 0, 240, 63],
+    details := [([107], .str [195, 159]), ([100], .date ⟨2020, 2, 29⟩), ([98], .bool true)],
+    lossDetails := [([110], .none), ([120], .int (-5)), ([102], .flt [0, 0, 0, 0, 0, 0, 4, 64])] }
+
+def exMeta2 : RawMetadata := { exMeta1 with limit := none, details := [] }
+
+def exTriangle : RawTriangle :=
+  [ { kind := .incremental, ps := ⟨2020, 1, 1⟩, pe := ⟨2020, 12, 31⟩, ev := ⟨2020, 12, 31⟩,
+      prev := some ⟨2020, 11, 30⟩, md := exMeta1,
+      values := [([112], .int 9223372036854775807),
+                 ([113], .intArr [2, 1] [1, 0, 0, 0, 0, 0, 0, 0, 2, 0, 0, 0, 0, 0, 0, 0]),
+                 ([114], .fltArr [] [0, 0, 0, 0, 0, 0, 248, 127])] },
+    { kind := .incremental, ps := ⟨2021, 1, 1⟩, pe := ⟨2021, 12, 31⟩, ev := ⟨2021, 12, 31⟩,
+      prev := some ⟨2021, 11, 30⟩, md := exMeta2, values := [([112], .none)] } ]
+
+theorem wf_of_cells_keys (t : RawTriangle) (hc : t.all cellOk = true)
+    (hk : 2 * (allKeys t).length < 32768) : wf t = true := by
+  have := poolOf_length_le t
+  simp only [wf, Bool.and_eq_true, decide_eq_true_eq]
+  exact ⟨hc, by omega⟩
+
+theorem exTriangle_cells : exTriangle.all cellOk = true := by decide
+theorem exTriangle_keys : 2 * (allKeys exTriangle).length < 32768 := by decide
+theorem exTriangle_wf : wf exTriangle = true := wf_of_cells_keys _ exTriangle_cells exTriangle_keys
+
 end Bermuda.Codec
